@@ -243,6 +243,16 @@ def bounded_documents(ctx, b):
     n = 40 if not ctx.thorough else 400
     inst = carry_instants(rng, n)
 
+    readers = {}
+
+    def reader(cls, **kw):
+        # one reader object per (class, options), reused for every document of the run: a reader
+        # that keeps state between reads shows up here, a fresh reader being the first use
+        key = (cls, tuple(sorted(kw.items())))
+        if key not in readers:
+            readers[key] = cls(**kw)
+        return readers[key]
+
     def cues(k):
         # k sorted spans
         pts = sorted(rng.sample(inst, 2 * k))
@@ -263,7 +273,7 @@ def bounded_documents(ctx, b):
                 blocks.append(f"{i + 1}\n{st(s)} --> {st(e)}\nline {i}a\nline {i}b\n")
             doc = "\n".join(blocks)
             exp = [((s, e) if withfrac else (s // US * US, e // US * US)) for s, e in sp]
-            caps = SRTReader().read(doc).get_captions("en-US")
+            caps = reader(SRTReader).read(doc).get_captions("en-US")
             got = [(c_.start, c_.end) for c_ in caps]
             b.case(("srt", doc), got == exp and all(type(x) is int for p in got for x in p),
                    {"expected": exp, "got": got}, sample={"format": "srt", "doc": doc})
@@ -286,7 +296,7 @@ def bounded_documents(ctx, b):
                           f"cue {i}", "second line", ""]
             doc = "\n".join(lines)
             exp = [(s + shift * 1000, e + shift * 1000) for s, e in sp]
-            caps = WebVTTReader(ignore_timing_errors=ite, time_shift_milliseconds=shift).read(doc).get_captions("en-US")
+            caps = reader(WebVTTReader, ignore_timing_errors=ite, time_shift_milliseconds=shift).read(doc).get_captions("en-US")
             got = [(c_.start, c_.end) for c_ in caps]
             b.case(("vtt", doc, shift, ite), got == exp, {"expected": exp, "got": got},
                    sample={"format": "webvtt", "doc": doc, "shift": shift})
@@ -327,7 +337,7 @@ def bounded_documents(ctx, b):
                 ps.append(f'<p begin="{d1}s" dur="{d2}s">t{i}</p>')
                 exp.append((v1, v1 + v2))
         doc = tmpl % "".join(ps)
-        caps = DFXPReader().read(doc).get_captions("en")
+        caps = reader(DFXPReader).read(doc).get_captions("en")
         got = [(c_.start, c_.end) for c_ in caps]
         b.case(("dfxp", doc), got == exp and all(type(x) is int for p in got for x in p),
                {"expected": exp, "got": got}, sample={"format": "dfxp", "doc": doc})
@@ -352,7 +362,7 @@ def bounded_documents(ctx, b):
                     continue
             ends.append(starts[i + 1] if i + 1 < len(starts) else s + 4000)
         doc = head % body
-        caps = SAMIReader().read(doc).get_captions("en-US")
+        caps = reader(SAMIReader).read(doc).get_captions("en-US")
         got = [(c_.start, c_.end) for c_ in caps]
         exp = [(s * 1000, e * 1000) for s, e in zip(starts, ends)]
         b.case(("sami", doc), got == exp, {"expected": exp, "got": got}, sample={"format": "sami", "doc": doc})
@@ -367,7 +377,7 @@ def bounded_documents(ctx, b):
         doc = "\n".join(lines)
         rate = Fraction(fps) if fps else Fraction(25)
         exp = [(int(frames[2 * i] * US / rate), int(frames[2 * i + 1] * US / rate)) for i in range(k)]
-        caps = MicroDVDReader().read(doc).get_captions("und")
+        caps = reader(MicroDVDReader).read(doc).get_captions("und")
         got = [(c_.start, c_.end) for c_ in caps]
         b.case(("microdvd", doc), got == exp and all(type(x) is int for p in got for x in p),
                {"expected": exp, "got": got}, sample={"format": "microdvd", "doc": doc})
